@@ -219,6 +219,20 @@ def bell_subnormal_truncated_classes(fmt, step=1):
     return out[::step]
 
 
+def bell_normal_boundary_classes(fmt, step=1):
+    """Untruncated classes within a few binades of the smallest normal: where error_is_accurate / round switch between the
+    normal and the subnormal treatment (the halfway test must read exactly the bits that rounding drops)."""
+    F = specs.FORMATS[fmt]
+    min_norm = 1 - F["bias"] + F["p1"]
+    out = []
+    for q in range(BELL_Q[0], BELL_Q[1] + 1):
+        for lz in range(64):
+            approx = (63 - lz) + q * 3.321928094887362
+            if min_norm - 3 <= approx <= min_norm + 2:
+                out.append((q, lz, 0))
+    return out[::step]
+
+
 def run_bell(report, tier, seed, fmts=("f64", "f32"), timeout=None, classes=None, strict=False):
     if _skip(report, "bell"):
         return []
